@@ -1486,3 +1486,100 @@ Lemma example_conversation2 :
   [ (0x8800, 0, [0; 0; 0; 7]); (0x9212, 1, [3; 97; 46; 98; 0; 0; 0]); (0x8001, 2, []) ] /\
   map (fun d => std_body (d_m d)) ms = [[0; 0; 0; 7]; [3; 97; 46; 98; 0; 0; 0]; []].
 Proof. repeat split; vm_compute; reflexivity. Qed.
+
+(* ------------------------------------------------------------------------------------------ *)
+(* Read before write, absorption included                                                     *)
+(* ------------------------------------------------------------------------------------------ *)
+Lemma rbw_outcomes_step c mv :
+  psi c ++ filter answered (read_srcs (snd (step c mv))) =
+  outcomes (snd (step c mv)) ++ psi (fst (step c mv)).
+Proof.
+  destruct mv as [| | | | |hh cmd body];
+    try (rewrite outcomes_no_absorb by (apply step_absorbed; discriminate); apply rbw_step; discriminate).
+  destruct (absorb_step_shape c) as [->|(d & q & Q & _ & _ & ->)].
+  - cbn [fst snd read_srcs flat_map filter outcomes app]. now rewrite app_nil_r.
+  - cbn [fst snd]. unfold psi, hand_l. cbn [c_q c_hand]. rewrite Q.
+    cbn [read_srcs flat_map filter outcomes app]. rewrite app_nil_r.
+    destruct (answered d); reflexivity.
+Qed.
+
+Theorem read_before_outcome c s : forall R W, R = W ++ psi c ->
+  R ++ filter answered (read_srcs (trace c s)) = W ++ outcomes (trace c s) ++ psi (final c s).
+Proof.
+  revert c. induction s as [|mv s IH]; intros c R W E.
+  - cbn [trace final read_srcs flat_map filter outcomes app]. now rewrite app_nil_r.
+  - rewrite trace_cons, final_cons, read_srcs_app, filter_app, outcomes_app.
+    rewrite app_assoc.
+    rewrite (IH (fst (step c mv)) (R ++ filter answered (read_srcs (snd (step c mv))))
+                (W ++ outcomes (snd (step c mv)))).
+    + now rewrite <- !app_assoc.
+    + rewrite E, <- !app_assoc. f_equal. apply rbw_outcomes_step.
+Qed.
+
+(* every history: what the writer has dealt with so far (replies written, responses handed over) are
+   messages whose read callbacks have already run; an absorbed message has no write at all *)
+Theorem callbacks_read_before_outcome ms s :
+  exists queued, filter answered (read_srcs (trace (init ms) s)) = outcomes (trace (init ms) s) ++ queued.
+Proof.
+  exists (psi (final (init ms) s)). apply (read_before_outcome (init ms) s [] []). reflexivity.
+Qed.
+Theorem callbacks_read_before_outcome_h ms s :
+  exists queued, filter answered (read_srcs_h (trace (init ms) s)) = outcomes (trace (init ms) s) ++ queued.
+Proof. rewrite read_srcs_h_eq. apply callbacks_read_before_outcome. Qed.
+
+(* the replies are a subsequence of the outcomes: dropping the absorbed messages *)
+Lemma outcomes_replies t : srcs (replies t) = flat_map (fun o => match o with
+    | OWrite w => if is_reply_wire w then srcs [w] else [] | _ => [] end) t.
+Proof.
+  induction t as [|o t IH]. reflexivity.
+  change (o :: t) with ([o] ++ t). rewrite replies_app, srcs_app, flat_map_app, IH. f_equal.
+  destruct o; try reflexivity. unfold replies. cbn [writes flat_map app filter]. rewrite app_nil_r.
+  destruct (is_reply_wire w); reflexivity.
+Qed.
+
+(* ------------------------------------------------------------------------------------------ *)
+(* The 0x1003 finding as the real conversation; further witnesses                             *)
+(* ------------------------------------------------------------------------------------------ *)
+(* heartbeat (joins the session), SendActiveMessage(0x9003) left outstanding, the terminal's complete
+   0x1003: the conversation is complete (nothing left in flight), the 0x1003 is an answered message,
+   two frames are written - the heartbeat's reply and the 0x9003 command - and none is a reply to it *)
+Lemma refuted_1003_absorbed_conversation :
+  match dm ex_hb, dm ex_1003 with
+  | [a], [b] =>
+    m_id (d_m b) = 0x1003 /\ answered b = true /\
+    let its := [IMsg a; IAsk 0x9003 [] b] in
+    asks_ok its = true /\
+    drained (final (init (items_msgs its)) (items_moves None its)) = true /\
+    items_moves None its = [MLook; MSend; MReply; MCmd (d_m a) 0x9003 []; MLook; MSend; MAbsorb] /\
+    map (fun w => (w_kind w, w_rid w, w_src w)) (writes (run_items its)) = [(WReply, 0x8001, Some a); (WCmd, 0x9003, None)] /\
+    srcs (replies (run_items its)) = [a] /\ filter answered (items_msgs its) = [a; b] /\
+    absorbed (run_items its) = [b]
+  | _, _ => False
+  end.
+Proof. vm_compute. repeat split; reflexivity. Qed.
+
+(* an outstanding 0x8103 answered by the terminal's general response 0x0001 (absorbed, never answered
+   anyway): a history WITH absorption in which every answered message still gets its reply *)
+Definition ex_0001 : list N := encode ex_hdr 0x0001 6 [0; 1; 129; 3; 0].
+Lemma example_absorbed_response_without_1003 :
+  match dm ex_hb, dm ex_0001 with
+  | [a], [b] =>
+    let its := [IMsg a; IAsk 0x8103 [0] b] in
+    let s := items_moves None its in let ms := items_msgs its in
+    asks_ok its = true /\ no_absorb s = false /\
+    forallb (fun d => negb (m_id (d_m d) =? 0x1003)) (filter answered ms) = true /\
+    drained (final (init ms) s) = true /\ absorbed (trace (init ms) s) = [b] /\
+    srcs (replies (trace (init ms) s)) = filter answered ms /\ filter answered ms = [a]
+  | _, _ => False
+  end.
+Proof. vm_compute. repeat split; reflexivity. Qed.
+
+(* two connections interleaved move by move, both complete: each shows exactly its own replies *)
+Lemma example_two_connections :
+  let mss := [dm ex_hb; dm ex_0801_a] in
+  let s := [(0%nat, MLook); (1%nat, MLook); (1%nat, MSend); (0%nat, MSend); (1%nat, MReply); (0%nat, MReply)] in
+  map (fun c => drained c) (gfinal (map init mss) s) = [true; true] /\
+  no_absorb (proj_moves 0 s) = true /\ no_absorb (proj_moves 1 s) = true /\
+  map (fun w => (w_rid w, w_ps w)) (writes (proj_obs 0 (gtrace (map init mss) s))) = [(0x8001, 0)] /\
+  map (fun w => (w_rid w, w_ps w)) (writes (proj_obs 1 (gtrace (map init mss) s))) = [(0x8800, 0)].
+Proof. repeat split; vm_compute; reflexivity. Qed.
